@@ -1,5 +1,10 @@
 import json,sys
-r=json.load(open('/verif/.work/r.json'))
-print(r['harness'], r['status'],r['violation_counts'], 'paths',r['paths'], 'dec',r['symbolic_decisions'], 'instr',r['instructions'], r['solver'], 'wall',r['wall_s'])
-for v in (r['violations'] or [])[:int(sys.argv[1]) if len(sys.argv)>1 else 8]: print(v['kind'],v['msg'],v['inputs'])
-print('unsupported',r['unsupported'], 'engine',r['engine_errors'][:2] if r['engine_errors'] else None, 'budget', r['unwind_exceeded'], 'reach', r['reach'])
+r=json.load(open(sys.argv[1] if len(sys.argv)>1 else '/verif/.work/r.json'))
+n=int(sys.argv[2]) if len(sys.argv)>2 else 8
+print('status',r['status'],'| paths',r['paths'], 'decisions',r['symbolic_decisions'], 'instr',r['instructions'], '| asserts',r['assert_unsat'],'/',r['assert_queries'],'| solver',r['solver']['queries'],'q',round(r['solver']['time_s'],1),'s unknown',r['solver']['unknown'], '| wall',round(r['wall_s'],1))
+print('violation counts',r['violation_counts'])
+for v in (r['violations'] or [])[:n]: print(' ',v['kind'],'|',v['msg'],'|',json.dumps(v['inputs'],sort_keys=True))
+if r['unsupported']: print('unsupported',r['unsupported'])
+if r['engine_errors']: print('ENGINE ERRORS',r['engine_errors'][:2])
+if r['unwind_exceeded']: print('budget',r['unwind_exceeded'])
+print('reach', r['reach'], 'truncated', r['truncated'])
